@@ -1944,6 +1944,305 @@ impl<'a> CompositionGraphEncoder<'a> {
     }
 }
 
+/// Verification hooks (add-only, compiled only with `--cfg wac_verif`).
+#[cfg(wac_verif)]
+impl CompositionGraph {
+    /// Returns the list of violated internal invariants (empty when the graph is consistent).
+    pub fn verif_invariants(&self) -> Vec<String> {
+        use petgraph::visit::NodeIndexable;
+        let mut out = Vec::new();
+        let g = &self.graph;
+        let live_pkg = |id: PackageId| {
+            self.packages
+                .get(id.index)
+                .map(|p| p.generation == id.generation && p.package.is_some())
+                .unwrap_or(false)
+        };
+
+        for n in g.node_indices() {
+            let node = &g[n];
+            let i = n.index();
+            // package ids are live
+            if let Some(id) = node.package {
+                if !live_pkg(id) {
+                    out.push(format!("node {i}: package id {}:{} is not live", id.index, id.generation));
+                }
+            }
+            let incoming: Vec<_> = g.edges_directed(n, Direction::Incoming).collect();
+            match &node.kind {
+                NodeKind::Instantiation(sat) => {
+                    if node.package.is_none() {
+                        out.push(format!("node {i}: instantiation without a package"));
+                    }
+                    let mut idx: Vec<usize> = Vec::new();
+                    for e in &incoming {
+                        match e.weight() {
+                            Edge::Argument(a) => idx.push(*a),
+                            _ => out.push(format!("node {i}: instantiation has a non-argument incoming edge")),
+                        }
+                    }
+                    idx.sort();
+                    let before = idx.len();
+                    idx.dedup();
+                    if idx.len() != before {
+                        out.push(format!("node {i}: two argument edges for one argument index"));
+                    }
+                    let mut s: Vec<usize> = sat.iter().copied().collect();
+                    s.sort();
+                    if s != idx {
+                        out.push(format!("node {i}: satisfied set {s:?} differs from incoming argument edges {idx:?}"));
+                    }
+                    if let Some(id) = node.package {
+                        if live_pkg(id) {
+                            let pkg = self.packages[id.index].package.as_ref().unwrap();
+                            let n_imports = self.types[pkg.ty()].imports.len();
+                            if idx.iter().any(|a| *a >= n_imports) {
+                                out.push(format!("node {i}: argument index out of range"));
+                            }
+                            if node.item_kind != ItemKind::Instance(pkg.instance_type()) {
+                                out.push(format!("node {i}: instantiation kind is not the package's instance type"));
+                            }
+                        }
+                    }
+                }
+                NodeKind::Alias => {
+                    let alias_edges: Vec<_> = incoming
+                        .iter()
+                        .filter(|e| matches!(e.weight(), Edge::Alias(_)))
+                        .collect();
+                    if alias_edges.len() != 1 || incoming.len() != 1 {
+                        out.push(format!(
+                            "node {i}: alias node has {} incoming alias edges of {} incoming edges",
+                            alias_edges.len(),
+                            incoming.len()
+                        ));
+                    }
+                    for e in alias_edges {
+                        let src = &g[e.source()];
+                        match (src.item_kind, e.weight()) {
+                            (ItemKind::Instance(id), Edge::Alias(x)) => {
+                                match self.types[id].exports.get_index(*x) {
+                                    Some((_, k)) => {
+                                        if *k != node.item_kind {
+                                            out.push(format!("node {i}: alias kind differs from the aliased export's kind"));
+                                        }
+                                    }
+                                    None => out.push(format!("node {i}: alias export index out of range")),
+                                }
+                                if src.package != node.package {
+                                    out.push(format!("node {i}: alias package differs from its source's package"));
+                                }
+                            }
+                            _ => out.push(format!("node {i}: alias source is not an instance")),
+                        }
+                    }
+                }
+                NodeKind::Import(name) => {
+                    if self.imports.get(name) != Some(&n) {
+                        out.push(format!("node {i}: import `{name}` is not in the import map"));
+                    }
+                    if !incoming.is_empty() {
+                        out.push(format!("node {i}: import node has incoming edges"));
+                    }
+                }
+                NodeKind::Definition => {
+                    match node.item_kind {
+                        ItemKind::Type(ty) => {
+                            if self.defined.get(&ty) != Some(&n) {
+                                out.push(format!("node {i}: definition is not in the defined map"));
+                            }
+                        }
+                        _ => out.push(format!("node {i}: definition of a non-type")),
+                    }
+                    if node.export.is_none() {
+                        out.push(format!("node {i}: definition without an export name"));
+                    }
+                    if incoming.iter().any(|e| !matches!(e.weight(), Edge::Dependency)) {
+                        out.push(format!("node {i}: definition has a non-dependency incoming edge"));
+                    }
+                }
+            }
+            for e in g.edges_directed(n, Direction::Outgoing) {
+                let dst = &g[e.target()];
+                let ok = match e.weight() {
+                    Edge::Alias(_) => matches!(dst.kind, NodeKind::Alias),
+                    Edge::Argument(_) => matches!(dst.kind, NodeKind::Instantiation(_)),
+                    Edge::Dependency => {
+                        matches!(dst.kind, NodeKind::Definition) && matches!(node.kind, NodeKind::Definition)
+                    }
+                };
+                if !ok {
+                    out.push(format!("edge {i}->{}: wrong endpoint kinds", e.target().index()));
+                }
+            }
+            // per-node export name agrees with the export map
+            match &node.export {
+                Some(name) => {
+                    if self.exports.get(name) != Some(&n) {
+                        out.push(format!("node {i}: export name `{name}` is not mapped to the node"));
+                    }
+                }
+                None => {
+                    if self.exports.values().any(|x| *x == n) {
+                        out.push(format!("node {i}: in the export map without an export name"));
+                    }
+                }
+            }
+        }
+        for (name, n) in &self.exports {
+            if !g.contains_node(*n) {
+                out.push(format!("export `{name}` refers to removed node {}", n.index()));
+            }
+        }
+        for (name, n) in &self.imports {
+            match g.node_weight(*n) {
+                Some(node) if node.import_name() == Some(name.as_str()) => {}
+                Some(_) => out.push(format!("import `{name}` refers to node {} which is not that import", n.index())),
+                None => out.push(format!("import `{name}` refers to removed node {}", n.index())),
+            }
+        }
+        for (ty, n) in &self.defined {
+            match g.node_weight(*n) {
+                Some(node)
+                    if matches!(node.kind, NodeKind::Definition) && node.item_kind == ItemKind::Type(*ty) => {}
+                Some(_) => out.push(format!("defined type refers to node {} which does not define it", n.index())),
+                None => out.push(format!("defined type refers to removed node {}", n.index())),
+            }
+        }
+        // package table
+        let mut free = self.free_packages.clone();
+        free.sort();
+        let before = free.len();
+        free.dedup();
+        if free.len() != before {
+            out.push("free package list has duplicates".to_string());
+        }
+        for (i, p) in self.packages.iter().enumerate() {
+            match &p.package {
+                None => {
+                    if !free.contains(&i) {
+                        out.push(format!("vacant package slot {i} is not in the free list"));
+                    }
+                }
+                Some(pkg) => {
+                    if free.contains(&i) {
+                        out.push(format!("occupied package slot {i} is in the free list"));
+                    }
+                    let id = PackageId { index: i, generation: p.generation };
+                    if self.package_map.get(&pkg.key() as &dyn BorrowedKey) != Some(&id) {
+                        out.push(format!("package slot {i} is not mapped by its key"));
+                    }
+                }
+            }
+        }
+        if free.iter().any(|i| *i >= self.packages.len()) {
+            out.push("free package list has an out-of-range slot".to_string());
+        }
+        for (key, id) in &self.package_map {
+            if !live_pkg(*id) {
+                out.push(format!("package map entry `{key}` refers to a vacant or stale slot"));
+            }
+        }
+        let _ = g.node_bound();
+        out
+    }
+
+    /// Returns a canonical textual dump of the graph state (one record per line, fields
+    /// separated by tabs; anything held in a hash map or set is sorted).
+    pub fn verif_dump(&self) -> String {
+        use petgraph::visit::NodeIndexable;
+        let g = &self.graph;
+        let mut s = String::new();
+        let opt = |o: &Option<String>| match o {
+            Some(x) => format!("+{}", x.escape_default()),
+            None => "-".to_string(),
+        };
+        let w = |e: &Edge| match e {
+            Edge::Alias(i) => format!("alias:{i}"),
+            Edge::Argument(i) => format!("arg:{i}"),
+            Edge::Dependency => "dep".to_string(),
+        };
+        writeln!(s, "bound\t{}", g.node_bound()).unwrap();
+        for n in g.node_indices() {
+            let node = &g[n];
+            let (kind, import, sat) = match &node.kind {
+                NodeKind::Definition => ("def", "-".to_string(), String::new()),
+                NodeKind::Import(name) => ("import", format!("+{}", name.escape_default()), String::new()),
+                NodeKind::Instantiation(sat) => {
+                    let mut v: Vec<usize> = sat.iter().copied().collect();
+                    v.sort();
+                    ("inst", "-".to_string(), v.iter().map(|i| i.to_string()).collect::<Vec<_>>().join(","))
+                }
+                NodeKind::Alias => ("alias", "-".to_string(), String::new()),
+            };
+            let pkg = match node.package {
+                Some(id) => format!("{}:{}", id.index, id.generation),
+                None => "-".to_string(),
+            };
+            writeln!(
+                s,
+                "node\t{}\t{kind}\t{:?}\t{pkg}\t{}\t{}\t{import}\t[{sat}]",
+                n.index(),
+                node.item_kind,
+                opt(&node.name),
+                opt(&node.export),
+            )
+            .unwrap();
+            let outs: Vec<String> = g
+                .edges_directed(n, Direction::Outgoing)
+                .map(|e| format!("{}/{}", e.target().index(), w(e.weight())))
+                .collect();
+            writeln!(s, "out\t{}\t{}", n.index(), outs.join(" ")).unwrap();
+            let ins: Vec<String> = g
+                .edges_directed(n, Direction::Incoming)
+                .map(|e| format!("{}/{}", e.source().index(), w(e.weight())))
+                .collect();
+            writeln!(s, "in\t{}\t{}", n.index(), ins.join(" ")).unwrap();
+        }
+        let mut imports: Vec<_> = self.imports.iter().collect();
+        imports.sort();
+        for (name, n) in imports {
+            writeln!(s, "import\t{}\t{}", name.escape_default(), n.index()).unwrap();
+        }
+        for (name, n) in &self.exports {
+            writeln!(s, "export\t{}\t{}", name.escape_default(), n.index()).unwrap();
+        }
+        let mut defined: Vec<_> = self.defined.iter().map(|(t, n)| (n.index(), format!("{t:?}"))).collect();
+        defined.sort();
+        for (n, t) in defined {
+            writeln!(s, "defined\t{t}\t{n}").unwrap();
+        }
+        for (i, p) in self.packages.iter().enumerate() {
+            let (key, ty) = match &p.package {
+                Some(pkg) => (format!("+{}", PackageKey::new(pkg)), format!("{:?}", pkg.ty())),
+                None => ("-".to_string(), "-".to_string()),
+            };
+            writeln!(s, "package\t{i}\t{}\t{key}\t{ty}", p.generation).unwrap();
+        }
+        let mut map: Vec<_> = self
+            .package_map
+            .iter()
+            .map(|(k, id)| (k.to_string(), id.index, id.generation))
+            .collect();
+        map.sort();
+        for (k, i, gen) in map {
+            writeln!(s, "pkgmap\t{k}\t{i}:{gen}").unwrap();
+        }
+        writeln!(
+            s,
+            "freepkgs\t{}",
+            self.free_packages.iter().map(|i| i.to_string()).collect::<Vec<_>>().join(",")
+        )
+        .unwrap();
+        s
+    }
+
+    /// Returns the slot index and generation of a package identifier.
+    pub fn verif_package_id(id: PackageId) -> (usize, usize) {
+        (id.index, id.generation)
+    }
+}
+
 #[cfg(test)]
 mod test {
     use super::*;
